@@ -12,7 +12,7 @@
 (***************************************************************************)
 EXTENDS Cases
 
-P == INSTANCE Parse WITH NameToks <- Range(NameOrder) \cup {"e"}, NumToks <- {"1", "2", "3"}, JunkToks <- {"$"}
+P == INSTANCE Parse WITH NameToks <- Range(NameOrder) \cup {"e", "a0", "a1", "a2", "c0", "c1", "c2"}, NumToks <- {"1", "2", "3"}, JunkToks <- {"$"}
 
 LenTok(n) == CASE n = 1 -> "1" [] n = 2 -> "2" [] OTHER -> "3"
 
@@ -140,7 +140,26 @@ Unit1Bracket(c) ==
 (* --- rule: einx.rearrange = einx.id --- *)
 Rearrange(c) == IF c.fam = "id" THEN {Pair("rearrange", DescToks(c), DescToks(c), NoKw, "rearrange")} ELSE {}
 
-RulePairs(c) == OmitOutput(c) \cup Unbracketed(c) \cup MergedBrackets(c) \cup Numbers(c) \cup Spaces(c) \cup Keepdims(c)
+(* --- rule: a scalar size for an ellipsis axis = the repeated tuple = the written-out repetition --- *)
+(* c = [fam |-> "ellscalar", r, av, cv, dv, tail] :  "(a c)... d -> a... c... d"  with c=cv (scalar) *)
+Idx(i) == CASE i = 1 -> "0" [] i = 2 -> "1" [] OTHER -> "2"
+AName(i) == CASE i = 1 -> "a0" [] i = 2 -> "a1" [] OTHER -> "a2"
+CName(i) == CASE i = 1 -> "c0" [] i = 2 -> "c1" [] OTHER -> "c2"
+EllScalar(c) ==
+  LET tl == IF c.tail THEN <<" ", "d">> ELSE <<>>
+      short == <<"(", "a", " ", "c", ")", "...">> \o tl \o Arrow \o <<"a", "...", " ", "c", "...">> \o tl
+      wr == JoinT([i \in 1..c.r |-> <<"(", AName(i), " ", CName(i), ")">>], <<" ">>) \o tl \o Arrow
+            \o JoinT([i \in 1..c.r |-> <<AName(i)>>], <<" ">>) \o <<" ">> \o JoinT([i \in 1..c.r |-> <<CName(i)>>], <<" ">>) \o tl
+      shape == [i \in 1..c.r |-> c.av * c.cv] \o (IF c.tail THEN <<c.dv>> ELSE <<>>)
+  IN {[kind |-> "ellipsis_scalar_vs_tuple", short |-> short, long |-> short, kw |-> NoKw, opmap |-> "same", shape |-> shape,
+       kwshort |-> [c |-> <<c.cv>>, d |-> <<c.dv>>, scalar |-> TRUE], kwlong |-> [c |-> [i \in 1..c.r |-> c.cv], d |-> <<c.dv>>, scalar |-> FALSE], names |-> <<>>],
+      [kind |-> "ellipsis_scalar_vs_written_out", short |-> short, long |-> wr, kw |-> NoKw, opmap |-> "same", shape |-> shape,
+       kwshort |-> [c |-> <<c.cv>>, d |-> <<c.dv>>, scalar |-> TRUE], kwlong |-> [c |-> [i \in 1..c.r |-> c.cv], d |-> <<c.dv>>, scalar |-> FALSE],
+       names |-> [i \in 1..c.r |-> CName(i)]]}
+EllScalarCases == {[fam |-> "ellscalar", r |-> r, av |-> av, cv |-> cv, dv |-> dv, tail |-> tl] : r \in 1..3, av \in 1..3, cv \in 1..3, dv \in 1..3, tl \in BOOLEAN}
+
+RulePairs(c) == IF c.fam = "ellscalar" THEN EllScalar(c) ELSE
+            OmitOutput(c) \cup Unbracketed(c) \cup MergedBrackets(c) \cup Numbers(c) \cup Spaces(c) \cup Keepdims(c)
             \cup Ellipses(c) \cup NestedArrow(c) \cup NestedComma(c) \cup Unit1Bracket(c) \cup Rearrange(c)
 
 ---------------------------------------------------------------------------
@@ -149,6 +168,9 @@ SyntacticRules == {"spaces", "nested_arrow", "nested_comma"}
 C07_BothParse == \A p \in RulePairs(case) : P!Parse(p.short).ok /\ P!Parse(p.long).ok
 C07_SyntacticSame == \A p \in RulePairs(case) : p.kind \in SyntacticRules => P!Parse(p.short) = P!Parse(p.long)
 
-EmitPairs == ShardOf(case) # Shard \/ RulePairs(case) = {} \/
-             PrintT(<<"P", ToJson([base |-> CaseJson(case), pairs |-> RulePairs(case)])>>)
+EmitPairs == IF case.fam = "ellscalar" THEN PrintT(<<"P", ToJson([base |-> case, pairs |-> RulePairs(case)])>>)
+             ELSE (ShardOf(case) # Shard \/ RulePairs(case) = {} \/
+                   PrintT(<<"P", ToJson([base |-> CaseJson(case), pairs |-> RulePairs(case)])>>))
+InitShort == IF Family = "ellscalar" THEN case \in EllScalarCases ELSE Init
+SpecShort == InitShort /\ [][Next]_vars
 =============================================================================
